@@ -139,7 +139,7 @@ NOT_APPLICABLE = {
     "C05": "every grammar production needs >= 3 tokens of symbolic input; " + _P,
     "C07": "needs parse_type / parse_selection_set on symbolic suffixes; measured: no symbolic dimension survives the parser (see C01/C02); " + _P,
     "C08": "parser + fmt pretty-printer + parser again; " + _P,
-    "C11": "check not built yet in this commit (planned: get_line_column on <= 3 chars)",
+    "C11": "SourceFile::get_line_column delegates to ariadne::Source, which builds a line table by iterating the characters of the whole (symbolic) text: the symbolic-length char-iteration pattern measured not to finish for two or more symbolic bytes; locations attached during CST conversion need the parser (no symbolic dimension survives it). The Name/Node location round trip itself is decided under C30",
     "C12": _S + "; also " + _P,
     "C13": "SchemaBuilder/ExecutableDocumentBuilder over IndexMap; " + _S,
     "C14": "whole validator over Schema; " + _S + "; the named oracle (graphql-core) is not installed",
